@@ -344,6 +344,7 @@ func C08(cfg Cfg) int {
 	}
 	run.Sample(map[string]any{"cells": "see distinct_classes_sample", "sizes": sizes, "gomaxprocs": c08Procs})
 	c08RealFetcher(run, cfg)
+	c08TwoStores(run, cfg)
 	raceChild(run, cfg, "C08race")
 	return run.Finish()
 }
